@@ -16,6 +16,8 @@ package utils
 //@ pure brsPos(b ref) int = ite(b.readHead < b.writeHead, b.readHead, brsRel(b))
 
 //@ func (*bufferedReadSeeker).Read props(C06,C05,C07)
+//@   local b recv 0 0
+//@   local p param 0 0
 //@   requires brsOK(b) && base(p) != base(b.buf)
 //@   assigns b.readHead, b.writeHead, elems(b.buf), elems(p), ghost rdPos[b.r], ghost rdCalls[b.r]
 //@   ensures[C06:inv] brsOK(b)
@@ -26,6 +28,9 @@ package utils
 //@   ensures[C05:returns-what-it-read] r0 >= rdPos[b.r] - old(rdPos[b.r])
 
 //@ func (*bufferedReadSeeker).Seek props(C06,C07)
+//@   local b recv 0 0
+//@   local offset param 0 0
+//@   local whence param 0 1
 //@   requires brsOK(b) && offset <= b.writeHead
 //@   assigns b.readHead
 //@   ensures[C06:inv] brsOK(b)
@@ -40,12 +45,15 @@ package utils
 //@ pure backoffTarget(n int) int = ite(n >= 12, 3000000000, pow2(n) * 1000000)
 
 //@ func addJitter props(C08)
+//@   local duration param 0 0
+//@   local jitterPercent param 0 1
 //@   requires 0 <= duration && duration <= 3000000000 && jitterPercent == f64(0.1)
 //@   assigns nothing
 //@   ensures[C08:jitter-lower] real(r0) >= 0.9 * real(duration) - 2
 //@   ensures[C08:jitter-upper] real(r0) <= 1.1 * real(duration) + 2
 
 //@ func ExponentialBackoffDuration props(C08)
+//@   local retryCount param 0 0
 //@   assigns nothing
 //@   ensures[C08:positive] r0 >= 1
 //@   ensures[C08:lower] real(r0) >= 0.9 * real(backoffTarget(retryCount)) - 2
@@ -53,6 +61,8 @@ package utils
 
 // ---- entry points used by the agent's main package (contracts carried across the package boundary) ----
 //@ func NewResponseForwarder props(C01,C05,C06,C07)
+//@   local client param 0 0
+//@   local r param 0 4
 //@   requires r != nil && client != nil
 //@   assigns nothing
 //@   ensures r1 == nil && r0 != nil
@@ -60,6 +70,8 @@ package utils
 // A poll is one GET of the pending path that names this agent's backend id (without it the proxy would treat the call
 // as a client request), and the ids come from that call's reply.
 //@ func ListPendingRequests props(C04,C01,C07)
+//@   local backendID param 0 2
+//@   local client param 0 0
 //@   requires client != nil
 //@   assigns ghost rdPos, ghost rdCalls
 //@   ghost polls int = 0
@@ -72,6 +84,11 @@ package utils
 //@     assert[C04:ids-come-from-this-polls-reply] polls == 1 && arg0 == reply
 
 //@ func ReadRequest props(C01,C04,C07)
+//@   local backendID param 0 2
+//@   local client param 0 0
+//@   local fr define 0 0 parseRequestFromProxyResponse ( _ , _ , _ , _ )
+//@   local proxyResp define 0 0 getRequestWithRetries ( _ , _ , _ , _ )
+//@   local requestID param 0 3
 //@   requires client != nil
 //@   assigns heap
 //@   ghost cb int = 0
@@ -96,6 +113,12 @@ package utils
 //@ pure declared(vals ref, t string, i1 int, i2 int) bool = exists_int(a, exists_int(b, declValid(vals, a, b) && declSeen(a, b, i1, i2) && t == declAt(vals, a, b))) && t != "" && !mayDrop(t)
 
 //@ func (*streamingResponseWriter).WriteHeader props(C03,C05,C07)
+//@   local header define 0 0 make ( http . Header )
+//@   local k range 0 0 _ . Header ( )
+//@   local status param 0 0
+//@   local v range 1 0 _ . Header ( ) . Values ( "Trailer" )
+//@   local vs range 1 0 _ . Header ( )
+//@   local w recv 0 0
 //@   requires w != nil && w.r != nil && w.header != nil && canonKeys(w.header) && w.respChan != nil && !closed(w.respChan) && w.bodyReader != nil
 //@   assigns w.wroteHeader, w.trailer, w.header
 //@   ghost sent int = 0
@@ -154,6 +177,8 @@ package utils
 // Write: commits with 200 if nothing was committed yet, then hands exactly this chunk to the body pipe in the same
 // call - nothing is retained or accumulated (C05), bytes are passed unchanged (C03).
 //@ func (*streamingResponseWriter).Write props(C03,C05,C07)
+//@   local bs param 0 0
+//@   local w recv 0 0
 //@   requires w != nil && w.r != nil && w.header != nil && canonKeys(w.header) && w.respChan != nil && !closed(w.respChan) && w.bodyReader != nil && w.bodyWriter != nil
 //@   ghost writes int = 0
 //@   ghost commits int = 0
@@ -175,6 +200,9 @@ package utils
 //@ pure tlen(m ref, t string) int = ite(in(t, m), len(asHeader(m)[t]), 0)
 //@ pure pk(t string) string = "Trailer:" + t
 //@ func (*streamingResponseWriter).Close props(C03,C07)
+//@   local k range 0 0 _ . Header ( )
+//@   local vs range 1 0 _ . Header ( )
+//@   local w recv 0 0
 //@   requires w != nil && w.r != nil && w.header != nil && canonKeys(w.header) && prefixedCanon(w.header) && w.respChan != nil && !closed(w.respChan) && w.bodyReader != nil && w.bodyWriter != nil && w.trailer != nil && w.trailer != w.header
 //@   requires w.wroteHeader ==> canonKeys(w.trailer) && forall_str(t, in(t, w.trailer) ==> !mayDrop(t))
 //@   ghost closes int = 0
@@ -227,6 +255,8 @@ package utils
 
 
 //@ func newBufferedReadSeeker props(C06,C07)
+//@   local bufSize param 0 1
+//@   local r param 0 0
 //@   requires r != nil && bufSize >= 0
 //@   assigns ghost brsBase
 //@   return *
@@ -239,6 +269,14 @@ package utils
 // What the transport does with the body during Do is the extern assumption "an arbitrary sequence of Read calls"
 // (sound because Read preserves brsOK); it is introduced by the havoc/assume pair on the Do hook.
 //@ func postResponseWithRetries props(C06,C01,C07)
+//@   local backendID param 0 2
+//@   local client param 0 0
+//@   local proxyReadSeeker define 0 0 newBufferedReadSeeker ( _ , readResponseBufSize )
+//@   local proxyReader param 0 4
+//@   local proxyReq define 0 0 http . NewRequest ( http . MethodPost , _ , _ )
+//@   local proxyURL param 0 1
+//@   local requestID param 0 3
+//@   local retryCount define 0 0 0
 //@   requires client != nil && proxyReader != nil && rdPos[proxyReader] >= 0
 //@   ghost attempts int = 0
 //@   ghost brs *bufferedReadSeeker = nil
@@ -274,6 +312,13 @@ package utils
 
 // ---- fetching a forwarded request (C01, C04, C09) ----
 //@ func getRequestWithRetries props(C01,C07)
+//@   local backendID param 0 2
+//@   local client param 0 0
+//@   local err define 1 0 http . NewRequest ( http . MethodGet , _ , nil )
+//@   local proxyReq define 0 0 http . NewRequest ( http . MethodGet , _ , nil )
+//@   local proxyResp var 0 0 * http . Response
+//@   local requestID param 0 3
+//@   local retryCount define 0 0 0
 //@   requires client != nil
 //@   ghost tries int = 0
 //@   call (*http.Client).Do
@@ -289,6 +334,9 @@ package utils
 //@     |   && len(values(proxyReq.Header, "X-Inverting-Proxy-Request-ID")) == 1 && values(proxyReq.Header, "X-Inverting-Proxy-Request-ID")[0] == requestID
 
 //@ func parseRequestFromProxyResponse props(C01,C02,C09,C07)
+//@   local backendID param 0 0
+//@   local proxyResp param 0 2
+//@   local requestID param 0 1
 //@   requires proxyResp != nil && proxyResp.Header != nil && proxyResp.Body != nil
 // the forwarded request (whose body is read lazily, later, by the backend round trip) is parsed from a buffered reader
 // created for this fetch alone, over this fetch's response body
@@ -311,6 +359,11 @@ package utils
 // queued once on a channel of capacity one that only this goroutine closes.
 // rely: the streaming writer sends only non-nil responses (its WriteHeader contract builds the response it sends).
 //@ func NewResponseForwarder$2 props(C03,C05,C07)
+//@   local proxyWriter define 1 0 io . Pipe ( )
+//@   local r param 1 4
+//@   local respChan define 0 0 make ( chan * http . Response )
+//@   local rw define 0 0 NewStreamingResponseWriter ( _ , _ )
+//@   local writeErrChan define 0 1 make ( chan error , 1 )
 //@   at defer proxyWriter.Close()
 //@   requires r != nil && respChan != nil && proxyWriter != nil && rw != nil && writeErrChan != nil && !closed(writeErrChan) && chcap(writeErrChan) == 1 && chlen(writeErrChan) == 0
 //@   ghost got *http.Response = nil
@@ -338,6 +391,7 @@ package utils
 //@   ensures[C03:at-most-one-response-per-forwarder] writes <= 1
 
 //@ func (*responseForwarder).Close props(C03,C07)
+//@   local r recv 0 0
 //@   requires r != nil && r.ResponseWriteCloser != nil && r.postErrChan != nil && r.writeErrChan != nil
 //@   ghost closes int = 0
 //@   call (io.Closer).Close
@@ -346,6 +400,8 @@ package utils
 //@   ensures[C03:writer-closed-before-waiting-for-the-upload] closes == 1
 
 //@ func (*streamingResponseWriter).CloseWithError props(C03,C07)
+//@   local err param 0 0
+//@   local w recv 0 0
 //@   requires w != nil && w.bodyReader != nil
 //@   assigns nothing
 //@   ghost n int = 0
@@ -357,6 +413,8 @@ package utils
 // The pending list the agent works from is decoded from exactly the bytes of this reply's body (bounded to 1 MiB), and
 // only a 200 reply yields ids (C04: nothing is forwarded on the strength of an error page).
 //@ func parseRequestIDs props(C04,C07)
+//@   local response param 0 0
+//@   local responseBody define 0 0 & io . LimitedReader { R : _ . Body , N : 1024 * 1024 , }
 //@   requires response != nil
 //@   assigns ghost rdPos, ghost rdCalls
 //@   ghost body []byte
@@ -372,6 +430,8 @@ package utils
 
 // ---- shutdown signal (C20): the returned channel is closed when, and only when, a SIGINT/SIGTERM has been received ----
 //@ func ShutdownSignalChan$1 props(C20)
+//@   local ch define 0 0 make ( chan struct { } )
+//@   local sigs define 0 0 make ( chan os . Signal , 1 )
 //@   at close(ch)
 //@   requires sigs != nil && ch != nil && !closed(ch)
 //@   ghost got int = 0
@@ -384,6 +444,7 @@ package utils
 //@   ensures[C20:a-received-signal-is-announced] closedCh == 1
 
 //@ func RoundTripperWithVMIdentity props(C20,C07)
+//@   local wrapped param 0 1
 //@   go-opaque RoundTripperWithVMIdentity$1
 //@   ensures[C07:transport-kept-or-wrapped] wrapped != nil ==> r0 != nil
 
@@ -391,6 +452,12 @@ package utils
 // the forwarder was created for, reading from the pipe the serialising goroutine writes to (C01); an upload error is
 // queued once on a channel of capacity one that only this goroutine closes (C07)
 //@ func NewResponseForwarder$1 props(C01,C06,C07)
+//@   local backendID param 1 2
+//@   local client param 1 0
+//@   local postErrChan define 0 0 make ( chan error , 1 )
+//@   local proxyHost param 1 1
+//@   local proxyReader define 0 0 io . Pipe ( )
+//@   local requestID param 1 3
 //@   at postResponseWithRetries(
 //@   requires client != nil && proxyReader != nil && postErrChan != nil && !closed(postErrChan) && chcap(postErrChan) == 1 && chlen(postErrChan) == 0 && rdPos[box(proxyReader)] >= 0
 //@   ghost posts int = 0
